@@ -6,6 +6,7 @@ mod sase;
 mod window;
 mod vplrun;
 mod expr;
+mod zdd;
 
 fn main() {
     let args: Vec<String> = std::env::args().collect();
@@ -22,6 +23,9 @@ fn main() {
         "win-record" => window::record(rest),
         "vpl-run" => vplrun::main(rest),
         "expr-replay" => expr::replay(rest),
+        "cmp-edge" => expr::cmp_edge(rest),
+        "zdd-pairs" => zdd::pairs(rest),
+        "zdd-machine" => zdd::machine(rest),
         other => {
             eprintln!("unknown engine {other}");
             std::process::exit(2);
